@@ -66,6 +66,25 @@ DEFAULT_KINDS = (
 )
 
 
+# descriptions with punctuation that means something elsewhere (colons, brackets, quotes, '#', '%', braces, '=', '*')
+PUNCT_TEMPLATES = ("%s: %s", "%s:", "%s (in %s)", "%s, %s; %s", "%s - %s", "%s/%s ratio", "`%s` %s", "the '%s' %s",
+                   'the "%s" %s', "%s #%s here", "%s 100%% %s", "%s {%s} here", "e.g. %s", "i.e. %s one", "%s = %s",
+                   "%s > %s", "%s * %s", "%s_%s name", "3 %s", "see http://x.y/%s")
+# str defaults with characters that are delimiters elsewhere (every one of these round-trips on the unchanged tree)
+STRODD = ["it's", "100%", "{x}", "#tag", "a:b", "a=b", "a,b", "(x)", "[x]", "x;y", " lead", "trail ", "a|b", "True", "5", "-3",
+          "1.5"]
+# (a double quote, a backslash or a backtick inside a str default are genuine defects of the docstring layer: probe only)
+STRBAD = ['say "hi"', "a\\b", "`tick`"]
+NESTED_TYPES = ["Optional[List[int]]", "Union[int, str, float]", "List[Optional[str]]", "Dict[str, int]", "Tuple[int, str]",
+                "Optional[Union[int, str]]", "List[List[int]]", "Optional[Literal['a', 'b']]", "Literal['only']",
+                "Literal['a b', 'c']"]
+
+
+def punct_doc(r):
+    t = r.choice(PUNCT_TEMPLATES)
+    return t % tuple(r.choice(WORDS) for _ in range(t.count("%s")))
+
+
 def rand_doc(r, n=None, trigger=False, multiline=False, stop=None, long=False):
     n = n or (r.randint(18, 40) if long else r.randint(1, 6))  # long: wraps under word_wrap (> 80/100 columns)
     words = [r.choice(vocab()) for _ in range(n)]
@@ -88,6 +107,10 @@ def make_type(r, kind):
     if kind == "literal":
         mem = r.sample(LITERAL_POOL, r.randint(2, 4))
         return "Literal[%s]" % ", ".join(repr(m) for m in mem)
+    if kind == "literaldq":
+        # the same type as an author of a docstring / JSON document would spell it: double-quoted members
+        mem = r.sample(LITERAL_POOL, r.randint(1, 3))
+        return r.choice(("Literal[%s]", "Optional[Literal[%s]]", "Literal[%s]")) % ", ".join('"%s"' % m for m in mem)
     if kind == "list":
         return "List[%s]" % r.choice(SCALARS)
     if kind == "union":
@@ -96,6 +119,8 @@ def make_type(r, kind):
         return r.choice(DOTTED)
     if kind == "complex":
         return "complex"
+    if kind == "nested":
+        return r.choice(NESTED_TYPES)
     if kind == "dict":
         return "dict"
     if kind == "listbare":
@@ -132,7 +157,7 @@ def make_default(r, typ, dkind):
         "int": {"int": [5, 42, 7, 1], "negint": [-3, -100, -1], "zero": [0]},
         "float": {"float": [0.5, 3.25, 2.0], "negfloat": [-1.5, -0.001], "smallfloat": [1e-07], "zero": [0.0]},
         "str": {"str": ["hello", "mnist", "a_b", "r", ",", "ab", "0", "\u00e9"], "strspace": ["x y"], "strtilde": ["~/dir"], "strdot": ["a.b"],
-                "emptystr": [""]},
+                "emptystr": [""], "strodd": STRODD, "strbad": STRBAD},
         "bool": {"bool": [True, False]},
         # a default whose text only reads correctly once the type is known ('1j' is no int / float / bool literal)
         "complex": {"imag": [1j, 2.5j, 3j]},
@@ -151,7 +176,7 @@ def admissible_default_kinds(typ):
     elif base == "float":
         out += ["float", "negfloat", "smallfloat", "zero"]
     elif base == "str":
-        out += ["str", "strspace", "strtilde", "strdot", "emptystr"]
+        out += ["str", "strspace", "strtilde", "strdot", "emptystr", "strodd", "strbad"]
     elif base == "bool":
         out += ["bool"]
     elif base == "complex":
@@ -168,14 +193,18 @@ def admissible_default_kinds(typ):
 def make_param(r, tkind, dkind, doc_kind="plain"):
     typ = make_type(r, tkind)
     p = OrderedDict()
-    if doc_kind != "none":
+    if tkind == "nested":
+        dkind = "absent"  # nested types are about the type string; they carry no default
+    if doc_kind == "punct":
+        p["doc"] = punct_doc(r)
+    elif doc_kind != "none":
         p["doc"] = rand_doc(r, trigger=doc_kind == "trigger", multiline=doc_kind == "multiline",
                             stop=True if doc_kind == "stop" else None, long=doc_kind == "long")
     p["typ"] = typ
     d = make_default(r, typ, dkind)
     if d is None:  # kind not applicable to this type: fall back to an applicable one (plain kinds first)
         alts = admissible_default_kinds(typ)[1:]
-        for alt in sorted(alts, key=lambda k: k in ("none", "code", "emptystr", "strdot")):
+        for alt in sorted(alts, key=lambda k: k in ("none", "code", "emptystr", "strdot", "strodd", "strbad")):
             d = make_default(r, typ, alt)
             if d is not None:
                 break
@@ -205,6 +234,10 @@ def default_kind_of(p):
     if isinstance(d, str):
         if d.startswith("```"):
             return "code"
+        if d in STRODD:
+            return "strodd"
+        if d in STRBAD:
+            return "strbad"
         if d == "":
             return "emptystr"
         if " " in d:
@@ -250,6 +283,8 @@ def rand_ir(r, nparams=None, type_kinds=TYPE_KINDS, default_kinds=None, suffix_d
     """Random interface. `suffix_defaults`: parameters with defaults form a suffix (signature-legal)."""
     n = r.randint(0, max_params) if nparams is None else nparams
     names = r.sample(NAMES, n)
+    if default_kinds is None:
+        default_kinds = DEFAULT_KINDS  # (kinds added later - imag, strodd, strbad - are opt-in)
     first_default = 0 if all_defaults else r.randint(0, n)
     params = OrderedDict()
     for i, nm in enumerate(names):
@@ -282,7 +317,8 @@ def rand_ir(r, nparams=None, type_kinds=TYPE_KINDS, default_kinds=None, suffix_d
             typ = rp["typ"]
             for alt in admissible_default_kinds(typ)[1:]:
                 d = make_default(r, typ, alt)
-                if d is not None and alt not in ("none", "code", "emptystr", "strdot", "strspace", "strtilde"):
+                if d is not None and alt not in ("none", "code", "emptystr", "strdot", "strspace", "strtilde", "strodd",
+                                                 "strbad"):
                     rp["default"] = "```%r```" % (d,)
                     break
         ret = OrderedDict([("return_type", rp)])
